@@ -232,6 +232,12 @@ def record(seed, n, out_path):
                                          for _ in range(rnd.randint(1, 5))))
                 else:
                     names.append(rnd.choice(pool))
+            # every public attribute of Vector / Table appears as a column name at least once (alone, repeated, re-cased)
+            reslist = sorted(res)
+            if eid <= len(reslist):
+                r0 = reslist[eid - 1]
+                names = [[r0], [r0, r0], [r0.upper(), "x", r0], [r0 + " ", None]][eid % 4]
+                w = len(names)
             t = Table([Vector([10 * (i + 1), 10 * (i + 1) + 1], name=names[i]) for i in range(w)])
             cols = t.cols()
             cmap = sorted(t._build_column_map().items(), key=lambda kv: kv[1])
